@@ -11,6 +11,7 @@ Part D: close effects under ALL interleavings (any number of threads, any progra
 -/
 import Wz.Proofs.C10_Refine
 import Wz.Gen.C10Sections
+import Wz.Gen.Shapes
 
 namespace Wz.C10
 open Wz.Model.Registry
@@ -686,5 +687,12 @@ theorem notifier_once_step_partial (cfg : Cfg) (s : Impl) (op : Op) (pc : Pc) (h
     (hs : ∀ i ∈ s.insts, i.notified.length + (if i.notifier then 1 else 0) ≤ 1) :
     ∀ i ∈ (stepOp cfg s op pc).1.insts, i.notified.length + (if i.notifier then 1 else 0) ≤ 1 :=
   Wz.C10.Refine.step_note_once cfg s op pc hpc hs
+
+
+/-- **Regenerated obligation** (wasm/module_instance.go): `CloseWithExitCode` unregisters the instance BEFORE it
+releases the resources and does not let a failing release skip anything: the name is free and lookups no longer
+find the instance whatever `ensureResourcesClosed` returns (the model's `mDel` before `mRes`). -/
+theorem close_unregisters_before_releasing :
+    Wz.Gen.Shapes.get "c10.close_tail" = some "_ = m.s.deleteModule(m) ;; return m.ensureResourcesClosed(ctx)" := by decide
 
 end Wz.C10
